@@ -7,7 +7,7 @@ from ..modes import Mode
 
 ID = "C02"
 MODE_WEIGHTS = [("bool", 3), ("poly", 4), ("maxtimes", 2), ("maxplus", 2),
-                ("float", 5), ("real", 2), ("log", 2)]
+                ("float", 5), ("real", 2), ("log", 2), ("expect", 2)]
 
 
 def pick_mode(rng, table=MODE_WEIGHTS):
